@@ -26,6 +26,7 @@ func checkC06(c *Ctx) {
 	c06Keys(c)
 	c06PRF(c)
 	c06Suite(c)
+	c06Immutable(c)
 }
 
 type hsRole struct {
@@ -415,4 +416,86 @@ func exprString(e ast.Expr) string {
 	var buf bytes.Buffer
 	printer.Fprint(&buf, token.NewFileSet(), e)
 	return buf.String()
+}
+
+// c06Immutable: the master secret is shared by reference (the exporter closure, the client session cache, the
+// ticket state): after it has been derived nothing writes into its bytes.
+func c06Immutable(c *Ctx) {
+	rule := "K-C06-master-immutable"
+	isMS := func(v ssa.Value) bool {
+		for {
+			switch x := v.(type) {
+			case *ssa.Slice:
+				v = x.X
+				continue
+			case *ssa.UnOp:
+				if x.Op == token.MUL {
+					if fa, ok := x.X.(*ssa.FieldAddr); ok {
+						n := fieldName(fa.X.Type(), fa.Field)
+						return n == "masterSecret"
+					}
+				}
+				return false
+			case *ssa.Phi:
+				for _, e := range x.Edges {
+					if u, ok := e.(*ssa.UnOp); ok && u.Op == token.MUL {
+						if fa, ok := u.X.(*ssa.FieldAddr); ok && fieldName(fa.X.Type(), fa.Field) == "masterSecret" {
+							return true
+						}
+					}
+				}
+				return false
+			}
+			return false
+		}
+	}
+	n := 0
+	bad := 0
+	for _, f := range c.P.RepoFuncs("gmtls") {
+		if strings.HasSuffix(c.P.relFile(f.Pos()), "_test.go") {
+			continue
+		}
+		touches := false
+		instrsOf(f, func(_ *ssa.BasicBlock, in ssa.Instruction) {
+			if fa, ok := in.(*ssa.FieldAddr); ok && fieldName(fa.X.Type(), fa.Field) == "masterSecret" {
+				touches = true
+			}
+		})
+		if !touches {
+			continue
+		}
+		n++
+		c.Evals++
+		var where ssa.Instruction
+		instrsOf(f, func(_ *ssa.BasicBlock, in ssa.Instruction) {
+			switch x := in.(type) {
+			case *ssa.Store:
+				if ia, ok := x.Addr.(*ssa.IndexAddr); ok && isMS(ia.X) {
+					where = x
+				}
+			case *ssa.Call:
+				if bi, ok := x.Call.Value.(*ssa.Builtin); ok {
+					switch bi.Name() {
+					case "copy", "clear":
+						if isMS(x.Call.Args[0]) {
+							where = x
+						}
+					case "append":
+						if isMS(x.Call.Args[0]) && !appendIsFresh(x.Call.Args[0]) {
+							where = x
+						}
+					}
+				}
+			}
+		})
+		if where != nil {
+			bad++
+			c.Violated(rule, fname(f), "the master secret's bytes are never written after derivation", "the bytes of a master secret are overwritten at "+c.P.pos(where.Pos())+": the exporter closure, the session cache and the ticket state share that slice, so exported keying material and resumed sessions change under the application's feet", where.Pos())
+		} else {
+			c.Holds(rule, fname(f), "the master secret's bytes are never written after derivation", "only whole-slice assignments", f.Pos())
+		}
+	}
+	if n < 8 {
+		c.Undecided(rule, "gmtls", "functions touching a master secret", fmt.Sprintf("only %d found", n), token.NoPos)
+	}
 }
